@@ -7,15 +7,15 @@ Local Open Scope Z_scope.
 
 (* Problem exactly on entering / changing between hard problem states (volatile: every non-OK result while hard),
    Recovery exactly on OK/Up from a HARD problem state, never for soft states, nothing while flapping.
-   Visible hypothesis [c02_vol_soft ... = false] = negated signature of finding "volatile-soft-recovery";
-   [c02_shape] (OK/Up is always hard) holds in every state reached from a check result (C01_pending). *)
+   [c02_shape] (OK/Up is always hard) holds in every state reached from the never-checked start (C02_request_rule_run).
+   No exception for volatile objects any more (/repo b9a7cb5, see C02_fix_volatile_soft_recovery). *)
 Theorem C02_request_rule : forall c now r f,
   rejected now (f_st f) r = false ->
   let f' := fst (do_result c now r f) in
   let o := snd (do_result c now r f) in
   (s_type (f_st f') = Soft \/ is_flapping c (f_flap f') = true ->
      c02_state_outs o = [] /\ f_sp_problem f' = f_sp_problem f /\ f_sp_recovery f' = f_sp_recovery f) /\
-  (c02_shape (fc_base c) (f_st f) -> c02_vol_soft (fc_base c) (f_st f) (r_state r) = false ->
+  (c02_shape (fc_base c) (f_st f) ->
    f_paused f = false -> is_flapping c (f_flap f') = false ->
    c02_reason now f' = false -> c02_pending f = false ->
      c02_state_outs o = c02_expected (fc_base c) (f_st f) (r_state r) (s_type (f_st f')) /\
@@ -29,7 +29,6 @@ Theorem C02_request_rule_run : forall c l now r,
   rejected now (f_st f) r = false ->
   let f' := fst (do_result c now r f) in
   let o := snd (do_result c now r f) in
-  c02_vol_soft (fc_base c) (f_st f) (r_state r) = false ->
   f_paused f = false -> is_flapping c (f_flap f') = false ->
   c02_reason now f' = false -> c02_pending f = false ->
   c02_state_outs o = c02_expected (fc_base c) (f_st f) (r_state r) (s_type (f_st f')) /\ c02_pending f' = false.
@@ -82,7 +81,7 @@ Print Assumptions C02_stash.
 (* safety of EVERY operation (results, timer, downtime add/remove/timers, acknowledge/clear/expire, parent
    results, pause/resume, next-check changes) in EVERY state: at most one state notification; none while paused
    or while a suppression reason holds; while events are pending only a releasing timer firing sends, it clears
-   the bits and sends only if the raw state differs from the remembered one; the remembered state is never
+   the bits and sends only if the state (hosts: Up/Down) differs from the remembered one; the remembered state is never
    overwritten while pending; bits are only cleared by a releasing firing and only set by a check result that
    sends nothing and remembers the hard state before it *)
 Theorem C02_safety : forall c now f op,
@@ -92,7 +91,8 @@ Theorem C02_safety : forall c now f op,
   (c02_state_outs o <> [] -> f_paused f = false /\ c02_reason now f' = false /\ c02_is_core_op op = true) /\
   (c02_pending f = true -> f_sbs f' = f_sbs f) /\
   (c02_pending f = true -> c02_state_outs o <> [] ->
-     op = OpFire /\ c02_pending f' = false /\ s_raw (f_st f) <> f_sbs f) /\
+     op = OpFire /\ c02_pending f' = false /\
+     release_same_state (c_kind (fc_base c)) (s_raw (f_st f)) (f_sbs f) = false) /\
   (c02_pending f = true -> c02_pending f' = false ->
      op = OpFire /\ f_paused f = false /\ c02_release_cond c now f = true) /\
   (c02_pending f = false -> c02_pending f' = true ->
@@ -118,14 +118,14 @@ Proof. exact remembered. Qed.
 Print Assumptions C02_remembered.
 
 (* the timer: first firing at which the four conditions hold clears the bits, sends exactly one notification iff
-   the raw state differs, and any further firing is silent; otherwise everything is kept *)
+   the state differs (hosts: Up/Down), and any further firing is silent; otherwise everything is kept *)
 Theorem C02_release_step : forall c now f,
   f_paused f = false -> c02_pending f = true ->
   let f' := fst (do_fire c now f) in
   let o := snd (do_fire c now f) in
   (c02_release_cond c now f = true ->
      c02_pending f' = false /\
-     c02_state_outs o = (if sstate_eqb (s_raw (f_st f)) (f_sbs f) then [] else [ONotify (c02_fire_type c f)]) /\
+     c02_state_outs o = (if release_same_state (c_kind (fc_base c)) (s_raw (f_st f)) (f_sbs f) then [] else [ONotify (c02_fire_type c f)]) /\
      (forall now', c02_state_outs (snd (do_fire c now' f')) = [])) /\
   (c02_release_cond c now f = false ->
      c02_state_outs o = [] /\ f_sp_problem f' = f_sp_problem f /\ f_sp_recovery f' = f_sp_recovery f /\
@@ -133,81 +133,76 @@ Theorem C02_release_step : forall c now f,
 Proof. exact release_step. Qed.
 Print Assumptions C02_release_step.
 
-(* MAIN release theorem in the property's terms (API state: Up/Down for hosts), all interleavings from the start.
-   Visible hypothesis [c02_results_faithful] = negated signature of finding "host-raw-state-release":
-   services unrestricted, host results only OK / CRITICAL. *)
+(* MAIN release theorem in the property's terms (API state: Up/Down for hosts, the service state for services), over ALL
+   interleavings from the never-checked start, hosts and services, all four raw results: at a firing at which no reason holds,
+   the object is hard, its next check is not imminent and no parent recovered recently, the bits are cleared, exactly one
+   notification is requested iff the state differs from the remembered one, and every later firing is silent. *)
 Theorem C02_release : forall c l now,
-  c02_results_faithful c l ->
   let f := c02_run c init_full l in
   let k := c_kind (fc_base c) in
   f_paused f = false -> c02_pending f = true -> c02_release_cond c now f = true ->
   c02_pending (fst (do_fire c now f)) = false /\
   c02_state_outs (snd (do_fire c now f)) =
-    (if api_state k (s_raw (f_st f)) =? api_state k (f_sbs f) then [] else [ONotify (c02_fire_type c f)]).
+    (if api_state k (s_raw (f_st f)) =? api_state k (f_sbs f) then [] else [ONotify (c02_fire_type c f)]) /\
+  (forall now', c02_state_outs (snd (do_fire c now' (fst (do_fire c now f)))) = []).
 Proof. exact release_rule. Qed.
 Print Assumptions C02_release.
 
-(* ---- findings: the faithful model violates the statement exactly here ---- *)
+(* ---- the two defects found here and fixed in /repo: what exactly the old code did differently ---- *)
 
 Definition c02_w_cfg (k : kind) (mx : Z) (vol : bool) : fcfg :=
   {| fc_base := {| c_kind := k; c_max := mx; c_volatile := vol |}; fc_flap_enabled := false;
      fc_flap_high := 3005; fc_flap_low := 2505; fc_active_checks := false; fc_check_interval := 300 |}.
 Definition c02_w_res (s : sstate) (t : Z) : op := OpResult {| r_state := s; r_start := t; r_end := t |}.
 
-(* host Up(OK) -> [downtime: Down, Up via WARNING] -> downtime removed -> timer: a Recovery is released although
-   the host state (Up) equals the remembered one *)
-Theorem C02_host_raw_state_release_refuted :
+(* /repo 5e50b7a.  OLD variant: FireSuppressedNotifications compared raw states ([sstate_eqb cur sbs]).  It agrees with the
+   fixed comparison for services and whenever the raw states are equal, and differs for hosts whose raw states collapse
+   (Up via WARNING vs Up via OK, Down via UNKNOWN vs Down via CRITICAL); on the witness run the fixed model is silent. *)
+Theorem C02_fix_host_raw_state_release :
+  ((forall a b, sstate_eqb a b = release_same_state KService a b) /\
+   (forall a b, sstate_eqb a b = true -> release_same_state KHost a b = true) /\
+   sstate_eqb SWarning SOK = false /\ release_same_state KHost SWarning SOK = true /\
+   sstate_eqb SUnknown SCritical = false /\ release_same_state KHost SUnknown SCritical = true) /\
   let c := c02_w_cfg KHost 1 false in
   let l := [(10, c02_w_res SOK 10); (20, OpDtAdd 1 true 20 100 0 0 0 false); (30, c02_w_res SCritical 30);
             (40, c02_w_res SWarning 40); (50, OpDtRemove 1 false RByUser)] in
   let f := c02_run c init_full l in
   f_paused f = false /\ c02_pending f = true /\ c02_release_cond c 60 f = true /\
-  api_state KHost (s_raw (f_st f)) = api_state KHost (f_sbs f) /\
-  c02_state_outs (snd (do_fire c 60 f)) = [ONotify NRecovery] /\
-  ~ c02_results_faithful c l.
-Proof.
-  cbv zeta. repeat split; try (vm_compute; reflexivity).
-  intros H. unfold c02_results_faithful in H. rewrite Forall_forall in H.
-  specialize (H (40, c02_w_res SWarning 40)). cbn in H.
-  destruct H as [H|H]; [auto 10|discriminate|discriminate].
-Qed.
-Print Assumptions C02_host_raw_state_release_refuted.
+  sstate_eqb (s_raw (f_st f)) (f_sbs f) = false /\
+  c02_state_outs (snd (do_fire c 60 f)) = [] /\ c02_pending (fst (do_fire c 60 f)) = false.
+Proof. split; [exact c02_release_old_differs|]. cbv zeta. repeat split; vm_compute; reflexivity. Qed.
+Print Assumptions C02_fix_host_raw_state_release.
 
-(* volatile service, max_check_attempts 3: OK, CRITICAL (soft 1/3), OK requests a Recovery from a SOFT state;
-   so does the very first OK result of a volatile object *)
-Theorem C02_volatile_soft_recovery_refuted :
+(* /repo b9a7cb5.  OLD variant [c02_send_old]: the volatile branch of send_notification without the soft -> OK/Up exclusion.
+   It requested exactly what the fixed code requests plus the case [c02_vol_soft] (volatile, OK/Up result, previous state soft
+   or never checked and not OK/Up); on the witness (volatile service, max 3: OK, CRITICAL soft 1/3, OK) the old decision is
+   "send", the fixed model requests nothing - nor on the very first OK result. *)
+Theorem C02_fix_volatile_soft_recovery :
+  (forall b pre r,
+     let s' := fst (step_accept b pre r) in
+     let i := snd (step_accept b pre r) in
+     c02_send_old b i s' (r_state r) = (c02_send b i s' (r_state r) || c02_vol_soft b pre (r_state r))) /\
   let c := c02_w_cfg KService 3 true in
   let f := c02_run c init_full [(10, c02_w_res SOK 10); (20, c02_w_res SCritical 20)] in
   let r := {| r_state := SOK; r_start := 30; r_end := 30 |} in
-  s_type (f_st f) = Soft /\ rejected 30 (f_st f) r = false /\ f_paused f = false /\ c02_pending f = false /\
-  c02_shape (fc_base c) (f_st f) /\
-  c02_vol_soft (fc_base c) (f_st f) (r_state r) = true /\
-  c02_state_outs (snd (do_result c 30 r f)) = [ONotify NRecovery] /\
-  c02_state_outs (snd (do_result c 10 {| r_state := SOK; r_start := 10; r_end := 10 |} init_full)) = [ONotify NRecovery].
-Proof. cbv zeta. repeat split; try (vm_compute; reflexivity). intros H; vm_compute in H; discriminate. Qed.
-Print Assumptions C02_volatile_soft_recovery_refuted.
+  s_type (f_st f) = Soft /\ rejected 30 (f_st f) r = false /\
+  c02_send_old (fc_base c) (snd (step_accept (fc_base c) (f_st f) r)) (fst (step_accept (fc_base c) (f_st f) r)) SOK = true /\
+  c02_state_outs (snd (do_result c 30 r f)) = [] /\
+  c02_state_outs (snd (do_result c 10 {| r_state := SOK; r_start := 10; r_end := 10 |} init_full)) = [].
+Proof. split; [exact c02_send_old_char|]. cbv zeta. repeat split; vm_compute; reflexivity. Qed.
+Print Assumptions C02_fix_volatile_soft_recovery.
 
 (* ---- the executable oracle run over implementation traces ---- *)
 
-(* every step of the model passes the oracle, or fails it with exactly one of the two finding codes, whose
-   signature then holds at that step *)
+(* every step of the model, from every state, passes the oracle *)
 Theorem C02_oracle_step : forall c now f o,
-  c02_code_ok c now f o (c02_check (fc_base c) (c02_model_obs c now f o)).
+  c02_check (fc_base c) (c02_model_obs c now f o) = 0.
 Proof. exact c02_check_model. Qed.
 Print Assumptions C02_oracle_step.
 
-(* on ANY model trace (any start state, any operations) the oracle reports nothing but the two finding classes *)
-Theorem C02_oracle_only_findings : forall c l f,
-  match oracle_c02 (fc_base c) (c02_model_trace c f l) with
-  | None => True
-  | Some (_, code) => code = 11 \/ code = 21
-  end.
-Proof. exact oracle_c02_model_only_findings. Qed.
-Print Assumptions C02_oracle_only_findings.
-
-Theorem C02_oracle_accepts_model : forall c l,
-  c02_results_faithful c l -> c02_no_vol_soft c init_full l ->
-  oracle_c02 (fc_base c) (c02_model_trace c init_full l) = None.
+(* ... hence every model trace: any start state, any operations, hosts and services, any raw results *)
+Theorem C02_oracle_accepts_model : forall c l f,
+  oracle_c02 (fc_base c) (c02_model_trace c f l) = None.
 Proof. exact oracle_c02_accepts_model. Qed.
 Print Assumptions C02_oracle_accepts_model.
 
@@ -219,22 +214,26 @@ Theorem C02_source_facts :
 Proof. repeat split; reflexivity. Qed.
 Print Assumptions C02_source_facts.
 
-(* non-vacuity: the premises of the release theorem are met by a reachable non-trivial state, on a service, and the
-   notification is really sent (WARNING -> [downtime: OK, CRITICAL] -> Problem released since CRITICAL <> WARNING);
-   when the state returned to the remembered one nothing is sent *)
+(* non-vacuity: the premises of the release theorem are met by reachable non-trivial states and the notification is really
+   sent (service WARNING -> [downtime: OK, CRITICAL] -> Problem released since CRITICAL <> WARNING); nothing is sent when the state
+   returned to the remembered one; a host that is Down via UNKNOWN instead of CRITICAL counts as unchanged, Up via WARNING after
+   remembered Down as changed *)
 Example C02_nonvacuous :
   let c := c02_w_cfg KService 1 false in
-  let l1 := [(10, c02_w_res SWarning 10); (20, OpDtAdd 1 true 20 100 0 0 0 false); (30, c02_w_res SOK 30);
-             (40, c02_w_res SCritical 40); (50, OpDtRemove 1 false RByUser)] in
-  let l2 := [(10, c02_w_res SWarning 10); (20, OpDtAdd 1 true 20 100 0 0 0 false); (30, c02_w_res SOK 30);
-             (40, c02_w_res SWarning 40); (50, OpDtRemove 1 false RByUser)] in
-  c02_results_faithful c l1 /\ c02_pending (c02_run c init_full l1) = true /\
+  let h := c02_w_cfg KHost 1 false in
+  let mk a b x := [(10, c02_w_res a 10); (20, OpDtAdd 1 true 20 100 0 0 0 false); (30, c02_w_res b 30);
+                   (40, c02_w_res x 40); (50, OpDtRemove 1 false RByUser)] in
+  let l1 := mk SWarning SOK SCritical in
+  let l2 := mk SWarning SOK SWarning in
+  let l3 := mk SCritical SOK SUnknown in
+  let l4 := mk SCritical SOK SWarning in
+  c02_pending (c02_run c init_full l1) = true /\
   c02_release_cond c 60 (c02_run c init_full l1) = true /\
   c02_state_outs (snd (do_fire c 60 (c02_run c init_full l1))) = [ONotify NProblem] /\
   c02_pending (c02_run c init_full l2) = true /\ c02_release_cond c 60 (c02_run c init_full l2) = true /\
   c02_state_outs (snd (do_fire c 60 (c02_run c init_full l2))) = [] /\
-  c02_no_vol_soft c init_full l1.
-Proof.
-  cbv zeta. repeat split; try (vm_compute; reflexivity).
-  unfold c02_results_faithful. repeat constructor.
-Qed.
+  c02_pending (c02_run h init_full l3) = true /\ c02_release_cond h 60 (c02_run h init_full l3) = true /\
+  c02_state_outs (snd (do_fire h 60 (c02_run h init_full l3))) = [] /\
+  c02_pending (c02_run h init_full l4) = true /\ c02_release_cond h 60 (c02_run h init_full l4) = true /\
+  c02_state_outs (snd (do_fire h 60 (c02_run h init_full l4))) = [ONotify NRecovery].
+Proof. cbv zeta. repeat split; vm_compute; reflexivity. Qed.
